@@ -27,7 +27,7 @@ CHECKS = {
    "At most 29 datagrams per fresh server; volume-based exhaustion not explored.",
    "proptest sequence generation + mutation against the real binary, liveness-probe oracle", "4/C05"),
  "C06": ("wire", "exploration",
-   "Exhaustive decision table (32 configurations x RRQ/WRQ x 11 targets) plus model-based testing: proptest generates a configuration and a history of <=11 requests; a reference decision table and model filesystem predict each reply class and the exact tree; the real send/receive trees are compared byte-for-byte with the model after every step.",
+   "Exhaustive decision table (32 configurations x RRQ/WRQ x 11 targets x {plain, with an unhonourable option value where a refusal is due}) plus model-based testing: proptest generates a configuration and a history of <=11 requests; a reference decision table and model filesystem predict each reply class and the exact tree; the real send/receive trees are compared byte-for-byte with the model after every step.",
    "Targets live in existing directories; aborted uploads follow C13's clean/keep rule in the model.",
    "model-based stateful proptest (decision table + model filesystem) against the real binary", "4/C06"),
  "C07": ("sim", "fault_enumeration",
@@ -39,7 +39,7 @@ CHECKS = {
    "Stale ACK numbers never alias an outstanding block; handshake is left undisturbed.",
    "proptest adversarial-script generation with a virtual clock, trace-predicate oracle", "4/C08"),
  "C09": ("wire", "exploration",
-   "Deterministic boundary sweep and all 65 ordered option selections, then proptest generates subsets/orders/cases of the four options with boundary and unhonourable values (also > 2^16 and > 2^32 non-multiples), unknown options interleaved, RRQ/WRQ, both port modes; OACK truthfulness rules and then the measured transfer (exact block length, exact burst size incl. windows larger than the socket buffer, ACK after exactly W blocks, retransmission not before the acknowledged timeout, content).",
+   "Deterministic boundary sweep and all 65 ordered option selections, then proptest generates subsets/orders/cases of the four options with boundary and unhonourable values (also > 2^16 and > 2^32 non-multiples), unknown options interleaved (also runs of 6-15 of them), RRQ/WRQ, both port modes; OACK truthfulness rules and then the measured transfer (exact block length, exact burst size incl. windows larger than the socket buffer, ACK after exactly W blocks, retransmission not before the acknowledged timeout, content).",
    "Timeouts > 255 not generated; timing tolerance 130 ms; big-window cases need SO_RCVBUFFORCE (skipped otherwise).",
    "proptest option-grammar generation against the real binary, reference negotiation rules + measured transfer", "4/C09"),
  "C10": ("pure", "exploration",
@@ -47,11 +47,11 @@ CHECKS = {
    "Trusts the independent reference decoder in harness/src/refcodec.rs; ERROR messages without NUL are exempt (pinned baseline test requires acceptance).",
    "bounded-exhaustive enumeration + proptest (mutation-based) + libFuzzer target, reference-decoder oracle", "4/C10"),
  "C11": ("pure", "exploration",
-   "proptest generation of Packet values from a grammar compared byte-for-byte with an independent RFC encoder and decoded by both decoders; exhaustive sweep of all 65536 u16 values through Opcode/ErrorCode conversions and DATA/ACK block numbers.",
+   "proptest generation of Packet values from a grammar (option lists of up to 40 pairs) compared byte-for-byte with an independent RFC encoder and decoded by both decoders; exhaustive sweep of all 65536 u16 values through Opcode/ErrorCode conversions and DATA/ACK block numbers.",
    "Trusts harness/src/refcodec.rs as the statement of the RFC layout.",
    "proptest grammar-based generation, differential against independent codec, exhaustive u16 sweep", "4/C11"),
  "C12": ("wire", "exploration",
-   "K model clients against one real tftpd with a generated single-threaded schedule (= arrival order at the listener) and injected foreign/stray datagrams; exhaustive interleavings for K=2 short transfers in both port modes, proptest for K<=16; oracle = per-client content, source ports, ERROR replies to ownerless endpoints, no leak.",
+   "K model clients against one real tftpd with a generated single-threaded schedule (= arrival order at the listener) and injected foreign/stray datagrams; exhaustive interleavings for K=2 short transfers in both port modes, proptest for K<=16; a paced conformant transfer that outlives six timeouts while other clients are served; oracle = per-client content, source ports, ERROR replies to ownerless endpoints, no leak.",
    "Interleaving granularity = one request or window per step; server-internal bind/connect gap not schedulable.",
    "exhaustive 2-client interleavings + proptest schedules against the real binary", "4/C12"),
  "C13": ("sim", "fault_enumeration",
@@ -59,7 +59,7 @@ CHECKS = {
    "Write errors only as EFBIG; the no-overwrite create/exists race is judged whichever way it falls.",
    "exhaustive abort-point enumeration + proptest, directory post-condition oracle; wire histories", "4/C13"),
  "C14": ("wire", "exploration",
-   "The real tftpc against the real tftpd: a deterministic size x option grid and proptest over direction x port mode x IPv4/IPv6 x path style x blksize x windowsize x timeout x size families x refusal kinds x server --duplicate-packets x client --keep-on-error x stale destination file, plus 65536- and 65538-block transfers; oracle = byte-identical files at the documented locations, refusal behaviour, termination within a watchdog.",
+   "The real tftpc against the real tftpd: a deterministic size x option grid and proptest over direction x port mode x IPv4/IPv6 x path style x blksize x windowsize x timeout x size families x refusal kinds x server --duplicate-packets x client --keep-on-error x stale destination file x lower/upper/mixed-case basenames, plus 65536- and 65538-block transfers; oracle = byte-identical files at the documented locations, refusal behaviour, termination within a watchdog.",
    "One burst kept below 100 KB (loopback drops); absolute local paths not generated.",
    "proptest configuration generation driving both real binaries, file-equality oracle", "4/C14"),
  "C15": ("sim", "exploration",
@@ -67,11 +67,11 @@ CHECKS = {
    "blksize 8 only for the long transfers.",
    "proptest + exhaustive single-fault enumeration at the wrap over a simulated socket, absolute-index trace predicates", "4/C15"),
  "C16": ("sim", "exploration",
-   "repeat = N+1 for N in {0,1,2,3,254} x roles x windows x sizes in the simulator (S9 multiplicity, content, termination), the repo's own sender against its own receiver over an in-memory link with N on either side, burst losses in duplicate mode, an uploader that leaves after the final ACK, and a wire grid --duplicate-packets {0,1,2,3,254,255,256,-1,1000,x} x port mode x options (initial reply once, DATA/ACK N+1 times, start-up rejection) plus two-window 300-block uploads and a real-time stale-ACK case.",
+   "repeat = N+1 for N in {0,1,2,3,254} x roles x windows x sizes in the simulator (S9 multiplicity, content, termination), the repo's own sender against its own receiver over an in-memory link with N on either side, burst losses in duplicate mode, an uploader that leaves after the final ACK, and a wire grid --duplicate-packets {0,1,2,3,254,255,256,-1,1000,x} x port mode x options (initial reply once - OACK, ACK 0 and every refusal kind - DATA/ACK N+1 times, start-up rejection) plus two-window 300-block uploads and a real-time stale-ACK case.",
    "The 1 ms sleep between copies is not judged.",
    "proptest over the simulated socket and an in-memory worker pair, multiplicity oracle; wire grid", "4/C16"),
  "C17": ("pure", "exploration",
-   "proptest argument vectors over the full server and client flag sets (valid/invalid values, repeats, unknown flags, dangling flag) compared field by field with a reference parser, plus a metamorphic re-parse of a permutation that keeps each flag's last occurrence; exhaustive ordered selections of <=4 of 16 representative groups.",
+   "proptest argument vectors over the full server and client flag sets (valid/invalid values, repeats, unknown flags, dangling flag, mixed-case file names and flag look-alikes) compared field by field with a reference parser, plus a metamorphic re-parse of a permutation that keeps each flag's last occurrence; exhaustive ordered selections of <=4 of 16 representative groups.",
    "-h/--help excluded (exits the process).",
    "proptest + exhaustive permutations, reference parser and permutation metamorphic relation", "4/C17"),
  "C18": ("pure", "exploration",
